@@ -10,6 +10,7 @@ R7 reply frame fields (len, unique, error)
 R8 every appending writer method is dominated by a refusing space check (shared with C04)
 R9 the pre-dispatch id remap cannot fail silently
 R3-layout (shared with C12.R3) the INIT compat replies cut the slice at the size of the array they fill (the reviewed `unwrap()`s cannot fail); R3-split (shared with C04) the header/body split of a reply buffer cuts inside the buffer that holds the split point
+R6 (cont.) the result of every write a reply helper issues is propagated (`?` or returned)
 """
 import json
 import os
